@@ -4,7 +4,7 @@
    model of expression_from_string, its postfix program is the grammar's, and under every scope whose keys
    are identifiers it evaluates to the arithmetic value [den e sc] (floor division, floor square root),
    undefined points and unbound names included.  Parsing takes no scope, so it cannot depend on one. *)
-From DL Require Import Base Lexer Parser Eval Shape Grammar Denote LexPrint ParseEval ShapeSound ShapeComplete.
+From DL Require Import Base Lexer Parser Eval Shape Grammar Denote LexPrint ParseEval ShapeSound ShapeComplete GenSrc SourceTie.
 
 Theorem C05_parse_eval : forall e, wf 1 e -> names_ok e ->
   exists d, expression_from_string (print_string e) = Ok d /\ d_ident d = print_string e /\
@@ -39,6 +39,12 @@ Proof. exact parse_shape_complete. Qed.
 Example ex5_shape : print_shape [GStar "batch"; GNamed "c" (Lit "3"); GExpr ex5; GAnon] = sapp "*batch c=3 " (sapp (print_string ex5) " ...").
 Proof. reflexivity. Qed.
 
+(* source tie: evaluate / evaluate_unary, the precedence order, the operator classes and strings and the identifier
+   pattern as TRANSLATED from /repo's _parser.py on this run (coq/gen/GenSrc.v) are the model's *)
+Theorem C05_source_tables : parser_tables_agree.
+Proof. exact parser_tables. Qed.
+
 Redirect "C05.assumptions.1" Print Assumptions C05_parse_eval.
+Redirect "C05.assumptions.4" Print Assumptions C05_source_tables.
 Redirect "C05.assumptions.3" Print Assumptions C05_shape_level.
 Redirect "C05.assumptions.2" Print Assumptions C05_parse_eval_named.
